@@ -5,7 +5,10 @@ EXTENDS Integers, Sequences, FiniteSets, TLC, Json, IOUtils, RSyncProtoAbs
 
 Cases == JsonDeserialize(IOEnv.CASES)
 ToSet(s) == {s[i] : i \in 1..Len(s)}
-Verdict(c) == Finish(Run(c.nt, ToSet(c.mayfail), c.trace))
+Verdict(c) == LET v == Finish(Run(c.nt, ToSet(c.mayfail), c.trace)) IN
+              IF v # "ok" THEN v
+              ELSE IF ~c.covered THEN "C17.a-target-lacks-or-differs-in-a-source-entry-after-a-multi-target-send"
+              ELSE "ok"
 ASSUME PrintT(<<"verdicts", [i \in 1..Len(Cases) |-> Verdict(Cases[i])]>>)
 VARIABLE x
 Init == x = 0
